@@ -56,6 +56,7 @@ def check(m, run):
     _oc.unit_range_rule(m, run, ('evaluate', 'evaluate_single', 'evaluate_list', 'derivatives', 'insert_knot', 'remove_knot'))
     run.floor('RG2.no-unit-range-test-for-un-normalised-shapes', 15, 'six methods x three shape classes')
     dom1(m, run)
+    domain_getter(m, run)
     ag5(m, run)
     ud1(m, run)
     ud2(m, run)
@@ -548,3 +549,31 @@ def ud1(m, run, rule='UD1.setter-getter-same-state'):
                    'setter computes delta = (knot range)/n but the getter returns round(1/delta) without the knot range: with normalize_kv=False '
                    'and a domain of length L != 1 the reported sample size is n/L, and delta >= 1 is rejected', site(g))
     run.floor(rule, 8, 'sample_size on Curve; sample_size[_u,_v] on Surface; sample_size[_u,_v,_w] on Volume')
+
+
+def domain_getter(m, run):
+    """DG2: the `domain` property interpreted on abstract shapes with labelled knots returns, per direction, (knot[degree], knot[-(degree + 1)])
+    - a pair for a curve, a list of pairs in (u, v, w) order otherwise.  Everything that starts "at the beginning of the domain" (rotation
+    origin, split guards, default evaluation range) relies on it."""
+    from .. import skel_drivers as _sd
+    from ..skel import SK, STD_ABSTRACTED, Tok, Violation, Unsupported
+    for cname, pdim, degs, sizes in (('Curve', 1, (2,), (5,)), ('Surface', 2, (2, 1), (4, 5)), ('Volume', 3, (1, 2, 3), (3, 5, 4))):
+        fi = m.lookup(('BSpline', cname), 'domain', 'getters')
+        if fi is None:
+            raise AnalysisError('BSpline.%s.domain getter not found' % cname)
+        obj = _sd.abstract_shape(cname, pdim, degs, sizes, False, [])
+        sk = SK(m, dict(STD_ABSTRACTED))
+        key = 'BSpline.%s.domain' % cname
+        try:
+            out = sk.call(fi, [obj], {})
+            lab = lambda x: next(iter(x.dep)) if isinstance(x, Tok) and x.dep and len(x.dep) == 1 else x
+            pairs = [out] if pdim == 1 else list(out)
+            got = [tuple(lab(x) for x in p_) for p_ in pairs]
+            want = [((d, degs[d]), (d, sizes[d])) for d in range(pdim)]        # index -(p + 1) of n + p + 1 knots is n
+            why = None if got == want else 'returns %s; the domain of direction d is (knot[degree_d], knot[-(degree_d + 1)]), here knots %s' % (
+                [tuple('knot_%s[%s]' % ('uvw'[x[0]], x[1]) if isinstance(x, tuple) else repr(x) for x in p_) for p_ in got], [(w[0][1], w[1][1]) for w in want])
+        except Violation as v:
+            why = '%s %s' % (v.msg, v.where())
+        except Unsupported as ex:
+            raise AnalysisError('%s: interpreter met an unsupported construct: %s' % (key, ex))
+        run.ob('DG2.domain-getter', key, why is None, 'per direction (knot[degree], knot[-(degree + 1)])' if why is None else why, site(fi))
